@@ -102,6 +102,19 @@ def run(ck: Check) -> None:
         u = gen.envelope(gen.root_md(own_keys, rng.choice([1, len(own_keys)]), [gen.key(9)], 1, version=rng.choice([v, v, v + 1, max(1, v - 1), v + 5])))
         gen.sign_env(u, ks if i % 3 else ks[:-1], gpg, rng)
         cases.append(Case("vdeleg", ["root", u, t, gpg], tag="role-root-on-root-metadata", group=200000 + i))
+    # directed: delegating metadata of exactly the role asked for, signed by the role's threshold, with stray entries in its unsigned signature map (a
+    # placeholder for a co-signer, an entry in another layout, a truncated one): accepted — only the checker for *trusted* metadata and verify_root look at those
+    for i in range(ck.n(120, 24)):
+        gpg = bool(i % 2)
+        ks = [gen.key(j) for j in rng.sample(range(8), rng.randint(1, 3))]
+        role = rng.choice(["key_mgr", "root"])
+        t = gen.envelope(gen.delegating_md("root", {role: gen.delegation(ks, len(ks)), "other": gen.delegation([gen.key(9)], 1)}, version=2))
+        u = gen.sign_env(gen.envelope(gen.delegating_md(role, {"pkg_mgr": gen.delegation([gen.key(8)], 1)}, version=rng.choice([1, 3]))), ks, gpg, rng)
+        for _ in range(rng.randint(1, 3)):
+            k_, v_ = gen.junk_entry(rng)
+            u["signatures"].setdefault(k_, v_)
+        u["signatures"][gen.key(10).hex] = rng.choice(["ab" * 64, {"signature": "ab" * 63}, None, {"sig": "x"}])
+        cases.append(Case("vdeleg", [role, u, t, gpg], tag="typed-metadata-with-stray-entries", group=300000 + i))
     for i in range(ck.n(3000, 500)):
         gpg = bool(i % 2)
         role, u, t = deleg_case(rng, gpg)
